@@ -17,21 +17,24 @@ import (
 type LV struct{ P Ptr }
 
 type evalCtx struct {
-	x         *Exec
-	st        *State
-	heap      *Heap
-	old       *Heap
-	loop      *Heap
-	ghost     map[string]*Term
-	oldGhost  map[string]*Term
-	vars      map[string]Value
-	names     map[string]Value
-	pkg       *types.Package
-	facts     bool
-	where     string
-	oldAlloc  *Term
-	loopGhost map[string]*Term
-	iter      *Iter // map iterator of the enclosing range loop (for rangeidx)
+	x           *Exec
+	st          *State
+	heap        *Heap
+	old         *Heap
+	loop        *Heap
+	ghost       map[string]*Term
+	oldGhost    map[string]*Term
+	vars        map[string]Value
+	names       map[string]Value
+	pkg         *types.Package
+	facts       bool
+	where       string
+	oldAlloc    *Term
+	loopGhost   map[string]*Term
+	bound       map[string]bool
+	localsFirst bool
+	params      map[string]bool
+	iter        *Iter // map iterator of the enclosing range loop (for rangeidx)
 }
 
 type evalErr struct{ msg string }
@@ -43,11 +46,16 @@ func (c *evalCtx) errf(format string, a ...interface{}) {
 func (c *evalCtx) with(vars map[string]Value) *evalCtx {
 	n := *c
 	n.vars = map[string]Value{}
+	n.bound = map[string]bool{}
 	for k, v := range c.vars {
 		n.vars[k] = v
 	}
+	for k := range c.bound {
+		n.bound[k] = true
+	}
 	for k, v := range vars {
 		n.vars[k] = v
+		n.bound[k] = true
 	}
 	return &n
 }
@@ -55,7 +63,11 @@ func (c *evalCtx) with(vars map[string]Value) *evalCtx {
 // ctxFor builds an evaluation context over the current state of a frame.
 func (x *Exec) ctxFor(st *State, fr *Frame, old *Heap, extra map[string]Value) *evalCtx {
 	c := &evalCtx{x: x, st: st, heap: st.heap, old: old, ghost: st.ghost, oldGhost: st.oldGh, vars: map[string]Value{}, facts: true}
+	c.params = map[string]bool{}
 	if fr != nil {
+		for _, p := range fr.fn.Params {
+			c.params[p.Name()] = true
+		}
 		c.names = fr.names
 		if fr.fn.Pkg != nil {
 			c.pkg = fr.fn.Pkg.Pkg
@@ -261,6 +273,20 @@ func (c *evalCtx) eval(e ast.Expr) Value {
 }
 
 func (c *evalCtx) lookupName(name string) (Value, bool) {
+	if c.bound[name] {
+		return c.vars[name], true // parameters of defines, quantified variables: innermost binding wins
+	}
+	if c.localsFirst && c.names != nil {
+		// proof steps (assert/use) see the current value of a reassigned parameter; p_<name> is the entry value
+		if v, ok := c.names[name]; ok {
+			return v, true
+		}
+	}
+	if strings.HasPrefix(name, "p_") {
+		if v, ok := c.vars[name[2:]]; ok && c.params[name[2:]] {
+			return v, true
+		}
+	}
 	if v, ok := c.vars[name]; ok {
 		return v, true
 	}
@@ -823,6 +849,15 @@ func (c *evalCtx) callExpr(n *ast.CallExpr) Value {
 	case "errtag":
 		// errtag(e): dynamic type tag of an interface value
 		return Sc{c.rv(c.eval(arg(0))).(If).Tag}
+	case "implements":
+		// implements(x, "pkg.Iface"): the dynamic type of interface value x implements the named interface
+		iv, ok := c.rv(c.eval(arg(0))).(If)
+		if !ok {
+			c.errf("implements: not an interface value")
+		}
+		name, _ := strconv.Unquote(arg(1).(*ast.BasicLit).Value)
+		declareFun("ifaceimpl", "(declare-fun ifaceimpl (Int Int) Bool)")
+		return Sc{And(Not(Eq(iv.Tag, Int(0))), App("ifaceimpl", SBool, Int(c.x.p.strID("iface:"+name)), iv.Tag))}
 	case "errval":
 		return Sc{c.rv(c.eval(arg(0))).(If).Pl}
 	case "typeid":
